@@ -120,7 +120,8 @@ void MainSolver::insertFormula(PTRef fla) {
 #ifdef OPENSMT_VERIF_TRACE
     if (veriftrace::on()) {
         veriftrace::emit("{\"e\":\"insert\",\"level\":" + std::to_string(getAssertionLevel()) + ",\"x\":" + std::to_string(fla.x) +
-                         ",\"fid\":" + std::to_string(frames.last().getId()) + ",\"t\":" + veriftrace::termJson(logic, fla) + "}");
+                         ",\"fid\":" + std::to_string(frames.last().getId()) + ",\"ms\":" + std::to_string(reinterpret_cast<std::uintptr_t>(this)) +
+                         ",\"t\":" + veriftrace::termJson(logic, fla) + "}");
     }
 #endif
     // TODO: Move this to preprocessing of the formulas
